@@ -68,6 +68,7 @@ def family(dense=False):
     fam["ser_deep"] = nf["n"].copy()
     fam["flat_arg"] = pd.DataFrame({"z": [1.0, 2.0, 3.0]}, index=["a", "a", "d"])
     fam["series_arg"] = pd.Series([10.0, 20.0, 30.0, 40.0], index=["a", "a", "a", "d"], name="given_name")
+    fam["asc_arg"] = [False]                     # a caller-owned list of sort directions
     fam["key_arg"] = np.array([-1, 0])          # a caller-owned array of positions (negative ones included) used as an assignment key
     fam["np_arg"] = np.arange(float(nf["n"].nest.flat_length)) + 200.0      # a caller-owned numpy array offered as flat values
     fam["lists_arg"] = pd.DataFrame({"u": pd.Series(pa.array([[1], [2, 3], [], [4]], type=pa.list_(pa.int64())), dtype=pd.ArrowDtype(pa.list_(pa.int64())),
@@ -88,6 +89,7 @@ def ops(tmpdir):
         "query_base": ("pure", "orig", lambda f: f["orig"].query("x > 1")),
         "eval_assign": ("pure", "orig", lambda f: f["orig"].eval("n.g = n.t * 2")),
         "sort_values": ("pure", "orig", lambda f: f["orig"].sort_values("n.f", ascending=False)),
+        "sort_values_list": ("pure", "orig", lambda f: f["orig"].sort_values(["n.f"], ascending=f["asc_arg"])),
         "dropna": ("pure", "orig", lambda f: f["orig"].dropna(subset=["n.f"])),
         "add_nested": ("pure", "orig", lambda f: f["orig"].add_nested(f["flat_arg"], "extra")),
         "reduce": ("pure", "orig", lambda f: f["orig"].reduce(lambda t: {"s": int(np.sum(t)), "o.t2": np.asarray(t) * 2}, "n.t")),
@@ -220,7 +222,7 @@ def run_sequence(seq, table, dense=False):
                 pass   # a no-op in this state (e.g. nothing to drop) is fine
     # whatever ran: the caller's later in-place writes into ITS OWN argument objects must not show in any frame / series
     # of the family (an operation that keeps the caller's memory instead of copying it)
-    args = ("flat_arg", "series_arg", "lists_arg", "np_arg", "key_arg")
+    args = ("flat_arg", "series_arg", "lists_arg", "np_arg", "key_arg", "asc_arg")
     before = {k: snap(v) for k, v in fam.items() if k not in args}
     try:
         fam["flat_arg"].iloc[0, 0] = 998.0
